@@ -13,6 +13,7 @@
 -/
 import GoIpa.Gen.BatchConv
 import GoIpa.Tie.Loops
+import GoIpa.Model.Curve
 namespace GoIpa.Tie.BatchConv
 open GoIpa GoIpa.Loop
 
@@ -359,5 +360,41 @@ theorem affine_spec (pX pY pZ : List F) (hZ : pZ.length = pX.length) :
       exact ⟨e1, e2⟩
     · simp only [hz, decide_false, Bool.false_eq_true, if_false] at e1 e2
       exact ⟨e1, e2⟩
+
+/-! ### on points: the results are the normalised representatives of the same points -/
+
+omit [DecidableEq F] in
+theorem getD_map' {α : Type} (l : List α) (f : α → F) (d : α) (j : Nat) (hj : j < l.length) :
+    (l.map f).getD j 0 = f (l.getD j d) := by
+  simp [List.getD_eq_getElem?_getD, List.getElem?_map, List.getElem?_eq_getElem hj]
+
+/-- **`batchToExtendedPointNormalized` on extended points**: entry `j` of the result is
+`ExtN.ofAff` of the affine point of `points[j]` — the representation `C08.rep_addN`
+(`ExtendedAddNormalized` adds the represented group element) is stated for; so the parameter
+`normalize` of `Tie.PrecompFull.newPrecompPoint_eq` is the identity on group elements. -/
+theorem normalized_points (pts : List (Ext F)) :
+    let r := Gen.BatchConv.batchToExtendedPointNormalized (pts.map (·.X)) (pts.map (·.Y)) (pts.map (·.Z))
+    ∀ j, j < pts.length →
+      (⟨r.1.getD j 0, r.2.1.getD j 0, r.2.2.getD j 0⟩ : ExtN F) = ExtN.ofAff ((pts.getD j ⟨0, 0, 0, 0⟩).toProj.toAff) := by
+  intro r j hj
+  obtain ⟨_, _, _, hv⟩ := normalized_spec (pts.map (·.X)) (pts.map (·.Y)) (pts.map (·.Z)) (by simp)
+  obtain ⟨e1, e2, e3⟩ := hv j (by simpa using hj)
+  show (⟨r.1.getD j 0, r.2.1.getD j 0, r.2.2.getD j 0⟩ : ExtN F) = _
+  rw [e1, e2, e3, getD_map' pts (·.X) ⟨0, 0, 0, 0⟩ j hj, getD_map' pts (·.Y) ⟨0, 0, 0, 0⟩ j hj,
+    getD_map' pts (·.Z) ⟨0, 0, 0, 0⟩ j hj]
+  rfl
+
+/-- **`batchProjToAffine` on projective points**: entry `j` is the affine point of `points[j]` -/
+theorem affine_points (pts : List (Proj F)) :
+    let r := Gen.BatchConv.batchProjToAffine (pts.map (·.X)) (pts.map (·.Y)) (pts.map (·.Z))
+    ∀ j, j < pts.length →
+      (⟨r.1.getD j 0, r.2.getD j 0⟩ : Aff F) = (pts.getD j ⟨0, 0, 0⟩).toAff := by
+  intro r j hj
+  obtain ⟨_, _, hv⟩ := affine_spec (pts.map (·.X)) (pts.map (·.Y)) (pts.map (·.Z)) (by simp)
+  obtain ⟨e1, e2⟩ := hv j (by simpa using hj)
+  show (⟨r.1.getD j 0, r.2.getD j 0⟩ : Aff F) = _
+  rw [e1, e2, getD_map' pts (·.X) ⟨0, 0, 0⟩ j hj, getD_map' pts (·.Y) ⟨0, 0, 0⟩ j hj,
+    getD_map' pts (·.Z) ⟨0, 0, 0⟩ j hj]
+  rfl
 
 end GoIpa.Tie.BatchConv
